@@ -104,9 +104,16 @@ class Check(object):
             raise AnalysisBroken(what)
 
     def min_instances(self, what, found, minimum):
-        if found < minimum:
-            raise AnalysisBroken('%s: %d instance(s) found, at least %d confirmed on the reference tree '
-                                 '(rule would pass vacuously)' % (what, found, minimum))
+        """Vacuity guard.  `minimum` is the number of instances confirmed by reading the reference tree; a
+        behaviour-preserving refactoring may legitimately merge duplicated sites into a helper, so the floor that
+        makes the analysis answer 'broken' is half of that number (at least one): the rule must still have matched
+        a substantial part of what it was written for."""
+        floor = max(1, minimum // 2)
+        self.instance_counts = getattr(self, 'instance_counts', {})
+        self.instance_counts[what] = {'found': found, 'confirmed_on_reference_tree': minimum, 'floor': floor}
+        if found < floor:
+            raise AnalysisBroken('%s: %d instance(s) found, %d confirmed on the reference tree, floor %d '
+                                 '(rule would pass vacuously)' % (what, found, minimum, floor))
 
     # -- finishing --
     def finish(self):
